@@ -79,6 +79,10 @@ func (root *Root) ResolveExecutable(
 			return nil, fmt.Errorf("%w, could not determine operation to evaluate", ErrResolve)
 		}
 	}
+	if root.schema == nil {
+		// Nothing was loaded, or every load was refused.
+		return nil, resError(op.line, op.col, "no schema has been loaded")
+	}
 	field := Field{Alias: "data", Name: string(op.Type), SelBase: SelBase{Sels: op.Sels}}
 
 	var opVars map[string]interface{}
